@@ -2,6 +2,7 @@
 package c05
 
 import (
+	"time"
 	"bytes"
 	"fmt"
 	"io"
@@ -374,6 +375,18 @@ func run(rt *rapid.T, magnet bool, npieces int, caps []pump.Caps, steps []step, 
 				return fmt.Sprintf("the peer's %s tick allocated %d bytes, more than %d: memory proportional to a numeric field of an earlier message", s.Cmd, alloc, budget) + describe(), labels, hist
 			}
 			labels["peer-tick:"+s.Cmd] = true
+		case "settle-hash":
+			// give the verification goroutine its moment, then handle what it reports
+			for k := 0; k < 2000 && npieces > 0; k++ {
+				if t.Pieces.Complete(0) || t.Pieces.PieceEmpty(0) {
+					break
+				}
+				time.Sleep(50 * time.Microsecond)
+			}
+			time.Sleep(200 * time.Microsecond)
+			if p := w.Drain(); p != "" {
+				return p + describe(), labels, hist
+			}
 		case "consumer":
 			if !t.InfoComplete() || npieces == 0 {
 				continue
@@ -408,11 +421,15 @@ func TestC05Messages(t *testing.T) {
 			npieces = rapid.SampledFrom([]int{1, 2, 8, 9, 100, 5000}).Draw(rt, "pieces")
 		}
 		var caps []pump.Caps
+		classes := map[string]bool{}
 		for i, n := 0, rapid.IntRange(1, 3).Draw(rt, "peers"); i < n; i++ {
-			caps = append(caps, pump.Caps{Fast: rapid.Bool().Draw(rt, "fast"), Extended: rapid.Bool().Draw(rt, "ext"), DHT: rapid.Bool().Draw(rt, "dht")})
+			caps = append(caps, pump.Caps{Fast: rapid.Bool().Draw(rt, "fast"), Extended: rapid.Bool().Draw(rt, "ext"), DHT: rapid.Bool().Draw(rt, "dht"),
+				AddrClass: rapid.SampledFrom([]string{"", "", "", "loopback", "link-local", "private", "port-0", "v6"}).Draw(rt, "addr")})
+			if caps[len(caps)-1].AddrClass != "" {
+				classes["peer-address:"+caps[len(caps)-1].AddrClass] = true
+			}
 		}
 		var steps []step
-		classes := map[string]bool{}
 		for i, n := 0, rapid.IntRange(1, 60).Draw(rt, "nsteps"); i < n; i++ {
 			switch k := rapid.IntRange(0, 9).Draw(rt, "kind"); {
 			case k < 7:
@@ -444,6 +461,14 @@ func TestC05Messages(t *testing.T) {
 			}
 			pre := []step{{Kind: "msg", P: 0, M: protocol.Bitfield{Bitfield: bf}, Desc: "Bitfield{all}", Wire: 5 + len(bf)},
 				{Kind: "msg", P: 0, M: protocol.Unchoke{}, Desc: "Unchoke", Wire: 5}, {Kind: "cmd", P: 0, Cmd: "request", A: rapid.SampledFrom([]int{0, 14, 21, 21}).Draw(rt, "prefixRequest")}}
+			if rapid.Bool().Draw(rt, "deliverFirst") {
+				// ... and the peer delivers the first block: with one-block pieces that
+				// completes a piece, which is then hashed for real (the hashes of this
+				// torrent are arbitrary: the piece fails, its contributors are blamed)
+				pc := protocol.Piece{Index: 0, Begin: 0, Data: gen.Fill(77, 16384)}
+				pre = append(pre, step{Kind: "msg", P: 0, M: pc, Desc: describeMsg(pc), Wire: 13 + 16384}, step{Kind: "settle-hash"})
+				classes["block-of-outstanding-request-delivered"] = true
+			}
 			steps = append(pre, steps...)
 			classes["with-outstanding-requests"] = true
 		}
